@@ -130,7 +130,84 @@ def mentions_flag(node):
     return False
 
 
-def arm_kinds(ps, all_kinds, with_implied=False):
+def _lit_bool(n):
+    n = F.strip(n)
+    if n.get("k") == "Lit" and n["value"].get("lit") == "bool":
+        return bool(n["value"]["v"])
+    return None
+
+
+def kind_filter(cond, all_kinds, fx=None, depth=0, adt=None):
+    """The set of execution-error kinds for which `cond` is true, or None if cond is not a pure test of the kind.
+    Understands `matches!(e, A | B)` (a match with boolean arms), negation, || and &&, and calls of local predicate
+    functions whose body is such a test (e.g. `Error::is_jump_target_error`)."""
+    c = cond
+    while True:
+        k = c.get("k")
+        if k == "DropTemps" or k == "Use" or k == "Type":
+            c = c["e"]
+        elif k == "Block" and not c["block"]["stmts"] and "expr" in c["block"]:
+            c = c["block"]["expr"]
+        else:
+            break
+    k = c.get("k")
+    allk = set(all_kinds)
+    if k == "Unary" and c.get("op") == "Not":
+        r = kind_filter(c["e"], all_kinds, fx, depth, adt)
+        return None if r is None else allk - r
+    if k == "Binary" and c.get("op") in ("Or", "And"):
+        l = kind_filter(c["l"], all_kinds, fx, depth, adt)
+        r = kind_filter(c["r"], all_kinds, fx, depth, adt)
+        if l is None or r is None:
+            return None
+        return (l | r) if c["op"] == "Or" else (l & r)
+    if k == "Match":
+        covered, true = set(), set()
+        saw_err = False
+        for a in c["arms"]:
+            if "guard" in a:
+                return None
+            pv = F.pat_variants(a["pat"])
+            if pv:
+                if not all(x == (adt or EXEC_ERR) for x, _ in pv):
+                    return None
+                saw_err = True
+                ks = {v for _, v in pv} - covered
+            else:
+                ks = allk - covered
+            val = _lit_bool(a["body"])
+            if val is None:
+                return None
+            if val:
+                true |= ks
+            covered |= ks
+        return true if saw_err else None
+    if k in ("MethodCall", "Call") and fx is not None and depth < 2:
+        d = F.callee_def(c)
+        b = fx.body(d) if d else None
+        if b is not None and b.get("hir") and (fx.fns.get(d, {}).get("output") or "").strip() == "bool":
+            return kind_filter(b["hir"]["value"], all_kinds, fx, depth + 1, adt)
+    return None
+
+
+def _diverges(node):
+    """Does this branch leave the function on every path (last statement / tail is a return)?"""
+    n = node
+    while n.get("k") == "Block":
+        blk = n["block"]
+        if "expr" in blk:
+            n = blk["expr"]
+        elif blk["stmts"]:
+            last = blk["stmts"][-1]
+            n = last.get("e") or {}
+        else:
+            return False
+    if n.get("k") == "DropTemps":
+        n = n["e"]
+    return n.get("k") == "Ret"
+
+
+def arm_kinds(ps, all_kinds, with_implied=False, fx=None):
     """Error kinds that can reach a node because of the enclosing match arms over execution::Error.
     Returns a set of variant names or None if unconstrained. With with_implied, also the subset of kinds that
     reach the node only when the permissive flag is off (they were intercepted by an earlier arm guarded by the flag)."""
@@ -163,6 +240,28 @@ def arm_kinds(ps, all_kinds, with_implied=False):
                 if is_err_match:
                     kinds = set(all_kinds) - covered
                     implied = imp & kinds
+        # `if <kind test> { .. } else { .. }` around the node
+        if anc.get("k") == "If" and key in ("then", "else"):
+            f = kind_filter(anc["cond"], all_kinds, fx)
+            if f is not None:
+                f = f if key == "then" else set(all_kinds) - f
+                kinds = f if kinds is None else kinds & f
+        # an earlier `if <kind test> { return .. }` in the same block: only the other kinds get past it
+        if "stmts" in anc and "k" not in anc and key in ("stmts", "expr"):
+            nxt = ps[i + 1][0] if i + 1 < len(ps) else None
+            before = anc["stmts"]
+            if key == "stmts" and nxt is not None:
+                idx = next((j for j, st in enumerate(anc["stmts"]) if st is nxt), len(anc["stmts"]))
+                before = anc["stmts"][:idx]
+            for st in before:
+                e = st.get("e") if st.get("s") in ("Expr", "Semi") else None
+                if e is not None and e.get("k") == "DropTemps":
+                    e = e["e"]
+                if e is not None and e.get("k") == "If" and "else" not in e and _diverges(e["then"]):
+                    f = kind_filter(e["cond"], all_kinds, fx)
+                    if f is not None:
+                        f = set(all_kinds) - f
+                        kinds = f if kinds is None else kinds & f
     if with_implied:
         return kinds, implied
     return kinds
